@@ -43,3 +43,18 @@ Lemma F11_refuted : forall ixa, fst (legacy_h_pending ixa tt ixa (VRec [VInt 156
 Proof. intros ixa. unfold legacy_h_pending. rewrite N.eqb_refl. reflexivity. Qed.
 Lemma F11_now : forall ixa, fst (h_pending ixa tt ixa (VRec [VInt 156; VNone])) = Some (RErr (EAborted 156)).
 Proof. intros ixa. apply (pending_query_abort_surfaces 156 ixa [VNone]). lia. Qed.
+
+(* ---------- F13 (C09): get_pending bailed on an unexpected reply in the middle of the exchange and kept the connection ---------- *)
+(* the old function handed back the world as the consumer loop left it: the current connection was still there *)
+Definition legacy_get_pending (cfg : config) (w : world) : cres (list N) * world :=
+  let cmd := mk_cmd "zvt::packets::PartialReversal" [] [(135, VSome (VInt 65535))] in
+  let q := seq_of "zvt::sequences::PartialReversal" cmd in
+  let ixa := variant_ix "zvt::sequences::PartialReversalResponse" "PartialReversalAbort" in
+  consume LOOPFUEL cfg (start_retry q TIMEOUT) w tt (h_pending ixa) (fun _ => RErr EIncomplete).
+(* a terminal that answers the query with an intermediate status and stays connected: the old client kept connection 0 *)
+Definition f13_world : world :=
+  {| w_conns := [{| k_queue := []; k_close := false; k_buf := [128; 0; 0; 4; 255; 1; 23] |}]; w_scripts := []; w_cur := Some 0; w_now := 5; w_log := [] |}.
+Lemma F13_refuted : fst (legacy_get_pending any_cfg f13_world) = RErr EUnexpectedPacket /\ w_cur (snd (legacy_get_pending any_cfg f13_world)) = Some 0.
+Proof. split; vm_compute; reflexivity. Qed.
+Lemma F13_now : fst (get_pending any_cfg f13_world) = RErr EUnexpectedPacket /\ w_cur (snd (get_pending any_cfg f13_world)) = None.
+Proof. split; vm_compute; reflexivity. Qed.
